@@ -207,7 +207,10 @@ def _emit(r: Rendered, lay: Layout, depth: int, text: str, st: dict | None = Non
             pool += ["page\x0cbreak", "vt\x0bhere", "sep\x1c\x1d\x1e", "nel\x85x", "ls\u2028ps\u2029"]
         r.lines.append(_ind(lay, depth) + "; " + lay.rng.choice(pool))
     if lay.on("block_comments", 0.1):
-        if lay.rng.random() < 0.5:
+        c = lay.rng.random()
+        if c < 0.25:
+            r.lines.append(_ind(lay, depth) + lay.rng.choice(["/* ---- init ---- **/", "/**** boxed ****/", "/** doc */", "/* a * b / c */", "/***/"]))
+        elif c < 0.5:
             r.lines.append(_ind(lay, depth) + "/* block comment */")
         else:
             r.lines.append(_ind(lay, depth) + "/* multi")
